@@ -311,6 +311,40 @@ pub fn run(ctx: &mut Ctx, c: &Case, o: &mut Outcome) -> R<StoreNote> {
     res
 }
 
+/// The real accepting side (`BobState::run`) receives a handshake for `ns` from `peer` and declines it with `reason`; with
+/// `deliverable = false` the dialler has gone away before the decline can be written. Returns the error it reports.
+async fn real_decline(f: &Fixture, me: usize, peer: iroh::PublicKey, ns: NamespaceId, reason: AbortReason, deliverable: bool) -> R<AcceptError> {
+    use tokio::io::AsyncWriteExt;
+    use tokio_util::codec::Encoder;
+    let h = f.actors[me].verif_sync_handle();
+    let init = {
+        let mut scratch = Store::memory();
+        es(scratch.import_namespace(iroh_docs::Capability::Read(ns)))?;
+        let m = es(es(scratch.open_replica(&ns))?.sync_initial_message())?;
+        iroh_docs::verif::net::Frame::init(ns, m)
+    };
+    let (mut peer_io, bob_io) = tokio::io::duplex(1 << 16);
+    let (br, bw) = tokio::io::split(bob_io);
+    let mut buf = bytes::BytesMut::new();
+    es(iroh_docs::verif::net::FrameCodec::default().encode(init, &mut buf))?;
+    es(peer_io.write_all(&buf).await)?;
+    let keep = if deliverable {
+        Some(peer_io)
+    } else {
+        // what was written stays readable; writes towards the dropped end fail
+        drop(peer_io);
+        None
+    };
+    let mut st = iroh_docs::verif::net::BobState::new(peer);
+    let res = tokio::time::timeout(std::time::Duration::from_secs(20), st.run(bw, br, h, move |_n, _p| std::future::ready(AcceptOutcome::Reject(reason)))).await;
+    drop(keep);
+    match res {
+        Err(_) => Err("harness-timeout: the real acceptor (one handshake, declined) did not finish within 20 s".into()),
+        Ok(Ok(_)) => Err("a declining acceptor reported success".into()),
+        Ok(Err(e)) => Ok(e),
+    }
+}
+
 async fn snapshot(f: &Fixture, w: &World, node: usize) -> VerifPeerSnapshot {
     let me = w.map[node];
     let other = w.map[1 - node];
@@ -544,6 +578,9 @@ async fn run_world(f: &mut Fixture, ns: NamespaceId, not_syncing: NamespaceId, m
                 Item::Reply { allow: Some(_), .. } => enabled.push(Ev::Lose(i)),
                 Item::ConnEnd { .. } => enabled.push(Ev::Deliver(i, false)),
                 Item::AcceptEnd { session: Some(_), .. } => enabled.push(Ev::Deliver(i, false)),
+                // a declined request whose decline cannot be delivered (the dialler has gone away); lifecycle mode only, so
+                // that the exhaustively enumerated schedule space of the basic mode stays what it was
+                Item::AcceptEnd { session: None, rejected: Some(_), .. } if lifecycle => enabled.push(Ev::Deliver(i, false)),
                 _ => {}
             }
         }
@@ -891,12 +928,32 @@ async fn run_world(f: &mut Fixture, ns: NamespaceId, not_syncing: NamespaceId, m
                             }
                             (None, Some(r)) => {
                                 note.declined_or_failed_sessions_observed += 1;
-                                Err(AcceptError::Abort { peer, namespace: w.ns, reason: r })
+                                if lifecycle {
+                                    // the real accepting side declines: its real error value is what the live actor gets
+                                    o.class(if ok { "real-acceptor-declined(decline-delivered)" } else { "real-acceptor-declined(dialler-gone,decline-undeliverable)" });
+                                    Err(real_decline(f, me, peer, w.ns, r, ok).await?)
+                                } else {
+                                    Err(AcceptError::Abort { peer, namespace: w.ns, reason: r })
+                                }
                             }
                             _ => Ok(finished(w.ns, peer)),
                         };
+                        let declined_already_syncing = matches!(rejected, Some(AbortReason::AlreadySyncing));
+                        let before = snapshot(f, &w, at).await;
                         let started = f.actors[me].verif_accept_finished(res).await;
                         note_followup(&mut w, at, started, o, "the acceptor's end");
+                        if declined_already_syncing {
+                            // the request was declined because the slot belongs to another session: however the declined
+                            // request ends, that session's slot is not its to free
+                            let after = snapshot(f, &w, at).await;
+                            if format!("{before:?}") != format!("{after:?}") {
+                                o.fail(
+                                    "C11/I1-declined-request-changed-the-slot",
+                                    format!("step {}: node {at} declined a request as already syncing; when the declined request ended (decline delivered: {ok}) the slot went from {before:?} to {after:?}", w.step),
+                                );
+                                return Ok(());
+                            }
+                        }
                     }
                 }
             }
